@@ -491,11 +491,32 @@ func (c *Ctx) freshPerItem(rule string, fi *FuncInfo, fillMethods map[string]boo
 		seen := map[types.Object]bool{}
 		for _, call := range callsIn(rs.Body, true) {
 			fn := calleeOf(info, call)
-			sel, ok := unparen(call.Fun).(*ast.SelectorExpr)
-			if fn == nil || !ok || !fillMethods[fn.Name()] {
+			if fn == nil {
 				continue
 			}
-			x := identObj(info, sel.X)
+			var x types.Object
+			if sel, ok := unparen(call.Fun).(*ast.SelectorExpr); ok && fillMethods[fn.Name()] {
+				x = identObj(info, sel.X)
+			} else if gi := c.FuncOfObj(fn); gi != nil && gi.Decl.Body != nil && inRepo(fn) {
+				// filled through a helper that receives the container: `indexInnerEdges(edgeIndex, edges)`
+				ginfo := gi.Pkg.TypesInfo
+				for k, a := range call.Args {
+					p := paramObj(ginfo, gi.Decl, k)
+					if p == nil || identObj(info, a) == nil {
+						continue
+					}
+					for _, inner := range callsIn(gi.Decl.Body, true) {
+						if isel, isSel := unparen(inner.Fun).(*ast.SelectorExpr); isSel && identObj(ginfo, isel.X) == p {
+							if g := calleeOf(ginfo, inner); g != nil && fillMethods[g.Name()] {
+								x = identObj(info, a)
+							}
+						}
+					}
+				}
+				if x != nil {
+					fn = gi.Obj
+				}
+			}
 			if x == nil || seen[x] {
 				continue
 			}
@@ -510,7 +531,7 @@ func (c *Ctx) freshPerItem(rule string, fi *FuncInfo, fillMethods map[string]boo
 						for i, l := range as.Lhs {
 							if identObj(info, l) == x && i < len(as.Rhs) {
 								if cl, ok := unparen(as.Rhs[i]).(*ast.CallExpr); ok {
-									if g := calleeOf(info, cl); g != nil && g.Name() == ctor {
+									if g := calleeOf(info, cl); g != nil && (g.Name() == ctor || c.returnsFreshFrom(g, ctor)) {
 										fresh = true
 									}
 								}
@@ -525,6 +546,38 @@ func (c *Ctx) freshPerItem(rule string, fi *FuncInfo, fillMethods map[string]boo
 		return true
 	})
 	return n
+}
+
+// returnsFreshFrom: g is an in-repo function all of whose returns hand back a call of ctor
+// (`func newSplitIndex(n int) *EdgeIndex { return NewEdgeIndex(..) }`).
+func (c *Ctx) returnsFreshFrom(g *types.Func, ctor string) bool {
+	gi := c.FuncOfObj(g)
+	if gi == nil || gi.Decl.Body == nil || !inRepo(g) {
+		return false
+	}
+	n, ok := 0, true
+	ast.Inspect(gi.Decl.Body, func(m ast.Node) bool {
+		if _, isLit := m.(*ast.FuncLit); isLit {
+			return false
+		}
+		if ret, isRet := m.(*ast.ReturnStmt); isRet {
+			n++
+			if len(ret.Results) != 1 {
+				ok = false
+				return true
+			}
+			cl, isCall := unparen(ret.Results[0]).(*ast.CallExpr)
+			if !isCall {
+				ok = false
+				return true
+			}
+			if h := calleeOf(gi.Pkg.TypesInfo, cl); h == nil || h.Name() != ctor {
+				ok = false
+			}
+		}
+		return true
+	})
+	return ok && n > 0
 }
 
 // localValues: the right-hand sides assigned to local v anywhere in body (definitions and plain
